@@ -65,7 +65,7 @@ CHECKS = {
              "and filter none/whitelist/blacklist, HandleFilterKeyWithCommand's output is compared with a reference rewrite derived from the Redis command "
              "reference (first/last/step). Non-key arguments are named so that they would be filtered if mistaken for keys. Every argument position is also tried as the empty string (as a key it passes a blacklist and fails a whitelist). Every command is also sent in UPPER, lOWER-first and aLtErNaTiNg spelling through the real ParseArgs. "
              "Second part (incremental path): every well-formed command stream up to length 3 (thorough: 4) over ten symbols (passing, failing and mixed-key commands, FLUSHALL in two spellings, MULTI, EXEC) "
-             "x key filter none/whitelist/blacklist runs through the real parser, sender and receiver against the in-memory target; the commands the target applies must be, in order, what the rewrite function returns for each command on its own (a decision never depends on the neighbouring commands; a command that is not key-addressed is never dropped).",
+             "x key filter none/whitelist/blacklist runs through the real parser, sender and receiver against the in-memory target; the commands the target applies must be, in order, what the rewrite function returns for each command on its own (a decision never depends on the neighbouring commands; a command that is not key-addressed is never dropped). Commands of variable arity are also sent with 63, 64, 65, 66, 129 and 257 key groups under six pass patterns (all, none, only the last, only the first, every third fails, only keys from the 65th on).",
         note="trusts the transcription of Redis' key positions in harness/filter/c13_test.go; commands added to the tool's table that the reference does not know are reported as notes, not judged",
         rule="case = (command, argument shape, pass mask, filter config); all distinct; states = distinct cases, transitions = calls; non-trivial = all (each is compared with the reference rewrite)",
         parts=[dict(pkg="./redis-shake/filter", harness=["filter"], test="^TestVerif_C13$", race=True, race_test="^TestVerif_C13Race$", race_shards=1, shards=1, budget=dict(quick=60, thorough=60)),
@@ -159,7 +159,7 @@ CHECKS = {
              "INFO without role line, slave, slave with a misleading earlier line, master, master with the role line late) is the explorer's choice; the "
              "back-off sleeps run on testing/synctest's fake clock. Full product over all rounds for maxRetries 1 and 2, all-fail default with <=2/3 deviating "
              "answers for the production value 6. Oracle: success iff the final round contains a node answering master, that node is the chosen source, "
-             "source+replicas is exactly the known node list, failure only after maxRetries+1 rounds and exactly the expected back-off, receiver state unchanged. Third part (TestVerif_C20R): the same whole-Sync() harness with the master role moving between the attempts of one syncer object: every sequence of masters over 1, 2 and 3 attempts (39 scenarios). Every PSYNC must go to the node that is master at that moment, discovery must end (no abort), and the syncer's node must name the master as source and the two other nodes as replicas. The real-factory part also runs with nodes that refuse connections (every subset pattern of one, two or three nodes down) with source.tls_enable off and on: with TLS the model nodes speak TLS with certificates of a harness CA the process trusts (SSL_CERT_FILE), through the tls.Dial seam. A reachable master must be found; when the only master is down the answer is an error after the retries, never a crash.",
+             "source+replicas is exactly the known node list, failure only after maxRetries+1 rounds and exactly the expected back-off, receiver state unchanged. Third part (TestVerif_C20R): the same whole-Sync() harness with the master role moving between the attempts of one syncer object: every sequence of masters over 1, 2 and 3 attempts (39 scenarios). Every PSYNC must go to the node that is master at that moment, discovery must end (no abort), and the syncer's node must name the master as source and the two other nodes as replicas. The real-factory part also runs with nodes that refuse connections (every subset pattern of one, two or three nodes down) with source.tls_enable off and on: with TLS the model nodes speak TLS with certificates of a harness CA the process trusts (SSL_CERT_FILE), through the tls.Dial seam. A reachable master must be found; when the only master is down the answer is an error after the retries, never a crash. The per-node answers include a node that answers NOAUTH (its password differs from the configured one).",
         note="trusts testing/synctest's fake clock (A1); the fake connection implements redigo.Conn directly (no network layer involved in this property)",
         rule="case = one complete sequence of probe answers; states = distinct answer sequences; transitions = probes; non-trivial = every completed execution (each is judged against the expected outcome)",
         parts=[dict(pkg="./redis-shake/dbSync/slotsupervisor", harness=["slotsupervisor"], test="^TestVerif_C20$", shards=16, budget=dict(quick=60, thorough=900)),
@@ -178,7 +178,7 @@ CHECKS = {
              "and no close is pending (checked on the private state at the moment of blocking), no deadlock or lost wake-up (a state with unfinished threads "
              "and nobody enabled), EOF only after draining, operations that start after a close completed fail at once with the right error. Sequentially, "
              "all words up to length 5 (7) over writes/reads of sizes {0,1,cap-1,cap,cap+1}, Buffered/Available and the four close variants are compared step "
-             "by step with a byte queue. A separate free-running -race build of the same scenario bodies looks for unsynchronised accesses. File-backed pipes also run directed words over three laps of the ring (lagging reader, writes across the ring end; 4 MiB and 12 MiB rings) in the quick tier.",
+             "by step with a byte queue. A separate free-running -race build of the same scenario bodies looks for unsynchronised accesses. File-backed pipes also run directed words over three laps of the ring (lagging reader, writes across the ring end; 4 MiB and 12 MiB rings) in the quick tier. Besides plain closes and a custom error the closes carry the two error values the pipe itself gives a meaning to: io.ErrClosedPipe on the writer side and io.EOF on the reader side.",
         note="the scheduler is sequentially consistent and switches only at Lock/Wait/thread end (sound for data-race-free code; races are the -race pass's job); file-backed pipes (4 MiB minimum) get a reduced set in thorough only",
         rule="execution = one schedule of one scenario (or one sequential word); states = distinct observable histories per scenario plus distinct sequential words; transitions = scheduling steps / operations; non-trivial = scenarios (each has conflicting operations by construction) and sequential words",
         parts=[dict(pkg="./pkg/libs/io/pipe", harness=["pipe"], test="^TestVerif_C09$", race_test="^TestVerif_C09Race$", race=True, race_shards=4, shards=16,
@@ -194,7 +194,7 @@ CHECKS = {
              "[wpos-cap, wpos] at some moment of the call; never a success for an offset outside the range during the whole call; blocked readers are woken "
              "by every write and by close (lost wake-up invariant on the shim's wait queue, deadlock detection); DataRange/IsValid/NewReader agree with the "
              "log. Sequentially all words up to length 5 (6) over writes of sizes up to 2cap+1, ReadAt/Seek at offsets around both ends of the data range, "
-             "reader operations and Close are checked after every step. Free-running -race pass of the same bodies. Two scenarios park three readers at the write position with fewer writes than readers and nobody closing: every one of them must be released. Rings are also started from a non-initial absolute position (the state after that many bytes were written long ago; offsets of the scenario are relative to it): the sequential words and seven scheduled scenarios run on the non-power-of-two ring just below 2^32, so that positions cross the 32-bit boundary without writing 4 GiB first.",
+             "reader operations and Close are checked after every step. Free-running -race pass of the same bodies. Two scenarios park three readers at the write position with fewer writes than readers and nobody closing: every one of them must be released. Rings are also started from a non-initial absolute position (the state after that many bytes were written long ago; offsets of the scenario are relative to it): the sequential words and seven scheduled scenarios run on the non-power-of-two ring just below 2^32, so that positions cross the 32-bit boundary without writing 4 GiB first. Writes of runs of zero bytes (4095, 4096, 4097, 8192 bytes and a whole ring) over the previous lap's data on both backends: the bytes read back must be the zeros written, not the older data.",
         note="the scheduler is sequentially consistent and switches only at Lock/Wait/thread end; the custom close error is not required to be the one reported (the statement only asks for an error); file backend reduced, thorough only",
         rule="execution = one schedule of one scenario or one sequential word; states = distinct observable histories per scenario plus distinct words; transitions = scheduling steps / operations; non-trivial = all",
         parts=[dict(pkg="./pkg/libs/io/backlog", harness=["backlog"], test="^TestVerif_C18$", race_test="^TestVerif_C18Race$", race=True, race_shards=4, shards=16,
@@ -340,7 +340,7 @@ CHECKS = {
              "flow - topology discovery (cluster source), checkpoint load, PSYNC, full sync with 2 workers, incremental sync, source reconnect, restart after a target "
              "error, refused source password - and the restore / rump / dump paths run with the tool's logger redirected to a buffer, at debug level (every statement on "
              "the path formats its arguments) and at info level. After each execution the buffer, json and %v renderings of conf.GetSafeOptions(), DbSyncer.GetExtraInfo() "
-             "and metric.NewMetricRest() are scanned. Coverage is reported as the set of distinct log call sites (file:line) that fired. A third part drives every connection helper of utils.go against every environment answer (dial refused, AUTH accepted / rejected / unknown to the peer and echoed back, peer closes, cluster start nodes unreachable, a standalone peer behind a loopback listener for the cluster client) x log level x auth_type.",
+             "and metric.NewMetricRest() are scanned. Coverage is reported as the set of distinct log call sites (file:line) that fired. A third part drives every connection helper of utils.go against every environment answer (dial refused, AUTH accepted / rejected / unknown to the peer and echoed back, peer closes, cluster start nodes unreachable, a standalone peer behind a loopback listener for the cluster client) x log level x auth_type. The connection-helper part also drives GetSlotDistribution; the error texts returned by the helpers whose callers log them (everything except AuthPassword, whose error every caller discards) are judged like log lines.",
         note="a monitor can only speak for the statements that the explored paths reach; the evidence lists them. main.go (startup echo) does not compile on the pinned tree, so the echo is checked at conf.GetSafeOptions(), the only thing it prints",
         rule="execution = (path, log level, source type, resume, fault); states = distinct log call sites that fired; non-trivial = all executions (each authenticates with both sentinels)",
         parts=[dict(pkg="./redis-shake/dbSync", harness=["dbsync"], test="^TestVerif_C19$", shards=16, gomaxprocs=2, budget=dict(quick=75, thorough=300)),
